@@ -1,6 +1,7 @@
 package rules
 
 import (
+	"fmt"
 	"go/constant"
 	"go/token"
 	"strings"
@@ -62,6 +63,10 @@ func runC18(ctx *core.Ctx) {
 	ctx.Rule("RI1", "only bytes read: importReader.buf grows only where the byte just returned by a successful ReadByte is appended; every other assignment re-slices it; ReadImports and ReadComments return (a prefix of) that buffer", 4)
 	ctx.Rule("RI2", "syntax-error fallback: when the recorded error is the syntax sentinel and syntax errors are not requested, the error is cleared and the reader drains the input in a loop guarded by err/eof before the whole buffer is returned", 1)
 	ctx.Rule("RI3", "byte-order mark: the keyword matcher compares raw bytes and the space-skipper does not skip 0xEF, so a leading UTF-8 BOM must be recognised (a comparison with or Peek/Discard of the bytes EF BB BF / U+FEFF) on every path before the first keyword is read", 1)
+	ctx.Rule("RI5", "lookahead discipline: the byte on which the identifier and keyword readers decide 'the token ends here' is obtained with peekByte, never with a consuming read", 3)
+	ctx.Rule("RI6", "raw reads inside tokens: every peekByte/nextByte call inside a loop of readKeyword, readIdent or readString passes skipSpace=false", 4)
+	ctx.Rule("RI7", "identifier byte class: the predicate the identifier reader uses is a pure combination of comparisons of its byte with constants, and the set it accepts - computed exactly over the 256 byte values by splitting the value set at every comparison - is [A-Za-z0-9_] plus every byte >= 0x80", 1)
+	ctx.Rule("RI8", "escapes in interpreted strings: readString contains a consuming read that is executed exactly when the byte just read is a backslash", 1)
 	ctx.Rule("RI4", "loop guards: every loop in the functions reachable from ReadImports/ReadComments has an exit whose condition depends on the reader's err/eof state (directly or through peekByte/nextByte, which return 0 once an error is set); the explicit panic is reachable only behind the error-iteration counter", 5)
 
 	ri := ctx.Need("RI1", "imports", "ReadImports")
@@ -268,6 +273,99 @@ func runC18(ctx *core.Ctx) {
 				ctx.OK("RI3", "imports.ReadImports#bom", where.Pos(), "a leading byte-order mark is recognised before the first keyword is matched")
 			} else {
 				ctx.Bad("RI3", "imports.ReadImports#bom", firstKw.Pos(), "nothing before the first readKeyword recognises a UTF-8 byte-order mark: for input \"\\xEF\\xBB\\xBFpackage p; import \\\"fmt\\\"\" the keyword match fails on 0xEF and no imports are reported, while go/parser accepts the file")
+			}
+		}
+	}
+	// ---- RI5/RI6/RI7: token discipline of the byte reader
+	{
+		peek := ctx.Need("RI5", "imports", "(*importReader).peekByte")
+		next := ctx.Need("RI5", "imports", "(*importReader).nextByte")
+		rid := ctx.Need("RI5", "imports", "(*importReader).readIdent")
+		rkw := ctx.Need("RI5", "imports", "(*importReader).readKeyword")
+		rstr := ctx.Need("RI6", "imports", "(*importReader).readString")
+		if peek != nil && next != nil && rid != nil && rkw != nil && rstr != nil {
+			// the byte class used by the identifier reader
+			var class *ssa.Function
+			graph(p, rid).Instrs(func(i ssa.Instruction) {
+				if c, ok := i.(*ssa.Call); ok {
+					if cal := c.Call.StaticCallee(); cal != nil && core.InModule(cal) && cal.Signature.Params().Len() == 1 && cal.Signature.Results().Len() == 1 &&
+						cal.Signature.Params().At(0).Type().String() == "byte" && cal.Signature.Results().At(0).Type().String() == "bool" {
+						class = cal
+					}
+				}
+			})
+			if class == nil {
+				ctx.Unknown("RI7", "imports.readIdent#class", rid.Pos(), "the identifier reader uses no byte-class predicate")
+			} else {
+				ctx.Seen(class)
+				acc, ok, why := byteClass(class)
+				if !ok {
+					ctx.Bad("RI7", "imports."+class.Name()+"#class", class.Pos(), "the set of identifier bytes cannot be established from comparisons of the byte with constants (%s); the reader must accept every byte of a multi-byte letter, so the class has to be total on 0x80..0xFF", why)
+				} else {
+					var diff []string
+					for c := 0; c < 256; c++ {
+						want := c >= 0x80 || c == '_' || ('0' <= c && c <= '9') || ('a' <= c && c <= 'z') || ('A' <= c && c <= 'Z')
+						if acc[c] != want && len(diff) < 6 {
+							diff = append(diff, fmt.Sprintf("%#02x accepted=%v", c, acc[c]))
+						}
+					}
+					ctx.Check(len(diff) == 0, "RI7", "imports."+class.Name()+"#class", class.Pos(), "identifier bytes are exactly [A-Za-z0-9_] and 0x80..0xFF %v", diff)
+				}
+				// RI5: the class test looks ahead, it never consumes
+				n := 0
+				for _, f := range []*ssa.Function{rid, rkw} {
+					graph(p, f).Instrs(func(i ssa.Instruction) {
+						c, ok := i.(*ssa.Call)
+						if !ok || c.Call.StaticCallee() != class {
+							return
+						}
+						n++
+						arg, ok := c.Call.Args[0].(*ssa.Call)
+						ctx.Check(ok && arg.Call.StaticCallee() == peek, "RI5", shortFn(f)+"#lookahead"+itoa(n), c.Pos(), "the byte tested for 'still part of the identifier' comes from peekByte: the byte that ends the token stays unread for the next token (a consuming read would swallow a quote or comment start that directly follows the name)")
+					})
+				}
+				if n == 0 {
+					ctx.Bad("RI5", "imports#lookahead", rid.Pos(), "no class test found in the identifier and keyword readers")
+				}
+			}
+			// RI6: inside a token nothing is skipped
+			n := 0
+			for _, f := range []*ssa.Function{rid, rkw, rstr} {
+				g := graph(p, f)
+				g.Instrs(func(i ssa.Instruction) {
+					c, ok := i.(*ssa.Call)
+					if !ok || (c.Call.StaticCallee() != peek && c.Call.StaticCallee() != next) {
+						return
+					}
+					if _, inLoop := innermostLoop(g, c.Block().Index); !inLoop {
+						return
+					}
+					n++
+					k, isK := ssax.ConstBool(c.Call.Args[1])
+					ctx.Check(isK && !k, "RI6", shortFn(f)+"#raw"+itoa(n), c.Pos(), "bytes inside a keyword, identifier or string literal are read without skipping spaces and comments (skipping there would drop a '/' or blank that belongs to an import path)")
+				})
+			}
+			if n == 0 {
+				ctx.Bad("RI6", "imports#raw", rstr.Pos(), "no in-token reads found")
+			}
+			// RI8: a backslash inside an interpreted string takes the next byte with it
+			{
+				g := graph(p, rstr)
+				esc := false
+				isRead := func(v ssa.Value) bool {
+					c, ok := v.(*ssa.Call)
+					return ok && (c.Call.StaticCallee() == next || c.Call.StaticCallee() == peek)
+				}
+				g.Instrs(func(i ssa.Instruction) {
+					c, ok := i.(*ssa.Call)
+					if !ok || c.Call.StaticCallee() != next {
+						return
+					}
+					if cmpFact(g.FactsAtInstr(c), token.EQL, isRead, isConstIntV('\\')) {
+						esc = true
+					}
+				})
+				ctx.Check(esc, "RI8", "imports.readString#escape", rstr.Pos(), "after a backslash the string reader consumes one more byte before it looks for the closing quote (otherwise \"a\\\"b\" ends at the escaped quote, and a path written with an escape is rejected)")
 			}
 		}
 	}
@@ -539,4 +637,183 @@ func spinsUnderError(p *core.Prog, g *ssax.Graph, l natLoop) string {
 		return "(it can: " + ssax.TrailString(path) + " -> head; the loop then spins until the iteration-counter panic)"
 	}
 	return ""
+}
+
+// byteClass computes the exact set of byte values for which a loop-free
+// predicate func(byte) bool returns true, by propagating the set of possible
+// argument values through the function and splitting it at every comparison
+// of the argument with a constant. Anything else the result depends on makes
+// the computation fail.
+func byteClass(f *ssa.Function) (acc [256]bool, ok bool, why string) {
+	if len(f.Params) != 1 || len(f.Blocks) == 0 {
+		return acc, false, "not a one-argument function"
+	}
+	par := f.Params[0]
+	isPar := func(v ssa.Value) bool {
+		for {
+			switch x := v.(type) {
+			case *ssa.Convert:
+				v = x.X
+				continue
+			case *ssa.ChangeType:
+				v = x.X
+				continue
+			}
+			break
+		}
+		return v == ssa.Value(par)
+	}
+	type set = [256]bool
+	fail := ""
+	var truth func(v ssa.Value, s set, env map[*ssa.Phi]ssa.Value, depth int) (set, bool)
+	truth = func(v ssa.Value, s set, env map[*ssa.Phi]ssa.Value, depth int) (set, bool) {
+		var out set
+		if depth > 50 {
+			return out, false
+		}
+		if k, isK := ssax.ConstBool(v); isK {
+			if k {
+				return s, true
+			}
+			return out, true
+		}
+		switch x := v.(type) {
+		case *ssa.Phi:
+			if e, has := env[x]; has {
+				return truth(e, s, env, depth+1)
+			}
+		case *ssa.UnOp:
+			if x.Op == token.NOT {
+				t, ok := truth(x.X, s, env, depth+1)
+				if !ok {
+					return out, false
+				}
+				for c := range s {
+					out[c] = s[c] && !t[c]
+				}
+				return out, true
+			}
+		case *ssa.BinOp:
+			var k int64
+			var isK, flip bool
+			if isPar(x.X) {
+				k, isK = ssax.ConstInt(x.Y)
+			} else if isPar(x.Y) {
+				k, isK = ssax.ConstInt(x.X)
+				flip = true
+			}
+			if isK {
+				for c := range s {
+					if !s[c] {
+						continue
+					}
+					a, b := int64(c), k
+					if flip {
+						a, b = b, a
+					}
+					switch x.Op {
+					case token.LSS:
+						out[c] = a < b
+					case token.LEQ:
+						out[c] = a <= b
+					case token.GTR:
+						out[c] = a > b
+					case token.GEQ:
+						out[c] = a >= b
+					case token.EQL:
+						out[c] = a == b
+					case token.NEQ:
+						out[c] = a != b
+					default:
+						return out, false
+					}
+				}
+				return out, true
+			}
+		}
+		fail = "the result depends on " + v.String()
+		return out, false
+	}
+	good := true
+	var walk func(b, prev *ssa.BasicBlock, s set, env map[*ssa.Phi]ssa.Value, depth int)
+	walk = func(b, prev *ssa.BasicBlock, s set, env map[*ssa.Phi]ssa.Value, depth int) {
+		if !good {
+			return
+		}
+		if depth > 200 {
+			good, fail = false, "the predicate loops"
+			return
+		}
+		empty := true
+		for _, v := range s {
+			if v {
+				empty = false
+			}
+		}
+		if empty {
+			return
+		}
+		env2 := map[*ssa.Phi]ssa.Value{}
+		for k, v := range env {
+			env2[k] = v
+		}
+		for _, ins := range b.Instrs {
+			switch x := ins.(type) {
+			case *ssa.Phi:
+				for k, pr := range b.Preds {
+					if pr == prev {
+						e := x.Edges[k]
+						if ph, isPhi := e.(*ssa.Phi); isPhi {
+							if r, has := env[ph]; has {
+								e = r
+							}
+						}
+						env2[x] = e
+					}
+				}
+			case *ssa.If:
+				t, ok := truth(x.Cond, s, env2, 0)
+				if !ok {
+					good = false
+					return
+				}
+				var f set
+				for c := range s {
+					f[c] = s[c] && !t[c]
+				}
+				walk(b.Succs[0], b, t, env2, depth+1)
+				walk(b.Succs[1], b, f, env2, depth+1)
+				return
+			case *ssa.Jump:
+				walk(b.Succs[0], b, s, env2, depth+1)
+				return
+			case *ssa.Return:
+				if len(x.Results) != 1 {
+					good, fail = false, "not a predicate"
+					return
+				}
+				t, ok := truth(x.Results[0], s, env2, 0)
+				if !ok {
+					good = false
+					return
+				}
+				for c := range t {
+					if t[c] {
+						acc[c] = true
+					}
+				}
+				return
+			case *ssa.BinOp, *ssa.UnOp, *ssa.Convert, *ssa.ChangeType, *ssa.DebugRef:
+			default:
+				good, fail = false, "the predicate does more than compare: "+ins.String()
+				return
+			}
+		}
+	}
+	var all set
+	for c := range all {
+		all[c] = true
+	}
+	walk(f.Blocks[0], nil, all, map[*ssa.Phi]ssa.Value{}, 0)
+	return acc, good, fail
 }
